@@ -327,6 +327,7 @@ def presence_ob(prog, res, dfi):
             c = it2.choose(len(PROBES), 'probe value')
             name = PROBES[c or 0]
             it2.user['probe'] = name
+            it2.user.setdefault('probes', []).append((it2.seqno, name))
             if name == 'int0':
                 return IntV(0)
             if name == 'dec0':
@@ -347,9 +348,10 @@ def presence_ob(prog, res, dfi):
         for first, last, s0, s1, head in iterations(p, func=dfi.short):
             if not isinstance(head.node, ast.For):
                 continue
-            probe = p.interp.user.get('probe')
-            if probe is None:
+            mine = [n for sq, n in p.interp.user.get('probes', []) if first <= sq <= last]
+            if len(set(mine)) != 1:
                 continue
+            probe = mine[0]
             emitted = [x for x in p.interp.user.get('emitted', []) if first < x < last]
             bits = [e for e in p.events if first < e.seq < last and e.kind == 'setitem' and isinstance(e.data['obj'], ListV)
                     and e.under(dfi.short)]
